@@ -21,7 +21,7 @@ RULE = (
     "{1..9} u {k*c, k*c+-1} x chunksize {1,2,3,None} x seed {0,1,12345} x attributes {none, weights, redshifts, both; "
     "value i encodes source row i} x workers {1, 2 (virtual pool, all delivery orders)}; history: every sequence of "
     "length <= 3 over {direct call, probe, full pass, abandoned partial pass} before the observed pass, and repeated "
-    "Catalog.from_random with one generator; probe: get_probe(s) for s in 1..n x chunksize {1,2,3,None} returns exactly s points, reproducibly; uniformity: the generator's rng replaced by a stub returning an exact "
+    "Catalog.from_random with one generator; the same histories with a probe as the observed operation; attribute tables of 1,2,3,7 rows: every row reachable (index range at the rng seam and 300*m real draws); probe: get_probe(s) for s in 1..n x chunksize {1,2,3,None} returns exactly s points, reproducibly; uniformity: the generator's rng replaced by a stub returning an exact "
     "regular grid, the points must satisfy ra = lo+u(hi-lo), sin(dec) = sin(lo)+v(sin(hi)-sin(lo)). Oracle: exact "
     "count, every point inside the window, weight and redshift name the same source row, records identical to a "
     "fresh generator with that seed. Non-trivial: size not a multiple of the chunk size, or a non-empty history."
@@ -65,8 +65,14 @@ def cases(tier, seed):
                 if tier == "quick" and hist_len == 3 and (n, c) != (5, 2):
                     continue
                 out.append(dict(part="history", hist=list(hist), n=n, chunksize=c, seed=12345, attrs="wz"))
+                if hist_len >= 1 and (n, c) == (5, 2):
+                    out.append(dict(part="history", hist=list(hist), n=n, chunksize=c, seed=12345, attrs="wz",
+                                    observe="probe"))
     for win, n in itertools.product(WINDOWS, (1, 2, 7, 64)):
         out.append(dict(part="uniform", window=win, n=n))
+    # attribute rows: with m source rows every row must be reachable (m = 1 included)
+    for m in (1, 2, 3, 7):
+        out.append(dict(part="rows", m=m))
     # the probe used for generating patch centres: exactly the requested number of points, whatever the chunk size
     for c, n in itertools.product((1, 2, 3, None), (5, 7)):
         for size in range(1, n + 1):
@@ -200,8 +206,17 @@ def run_history(case):
         else:
             it = iter(reader)
             next(it)
-    got = observed_pass(reader)
     v = []
+    if case.get("observe") == "probe":
+        # the probe after prior use equals the probe of a fresh reader on a fresh generator
+        want = RandomReader(make_gen("box", attrs, seed), n, c).get_probe(3)
+        got = reader.get_probe(3)
+        if len(got) != 3 or not np.array_equal(got, want):
+            v.append(dict(signature="C16/history/probe-not-reproducible",
+                          what=f"after prior use {case['hist']} get_probe no longer returns the points of a fresh "
+                               f"generator with seed {seed}"))
+        return v, True
+    got = observed_pass(reader)
     if got is None or len(got) != n:
         v.append(dict(signature="C16/history/size", what=f"pass after history {case['hist']} yields "
                       f"{0 if got is None else len(got)} points, {n} requested"))
@@ -214,6 +229,36 @@ def run_history(case):
     if not np.array_equal(got2, fresh):
         v.append(dict(signature="C16/history/second-reader", what="a second reader on a used generator differs from a fresh one"))
     return v, len(case["hist"]) > 0
+
+
+def run_rows(case):
+    """Joint attribute draws reach every source row: exact at the random-source seam (index range requested from the
+    rng) and on the real generator with a fixed seed (300*m draws; a fixed, repeatable computation)."""
+    from yaw.randoms import BoxRandoms
+
+    m = case["m"]
+    v = []
+    kw = dict(weights=1.0 + np.arange(m), redshifts=0.01 * (np.arange(m) + 1))
+    try:
+        gen = BoxRandoms(*WINDOWS["box"], seed=12345, **kw)
+        data = gen(300 * m)
+    except Exception as e:
+        return [dict(signature=f"C16/rows/exception:{type(e).__name__}", what=f"{m} attribute rows: {yawx.exc_name(e)}")], True
+    rows = np.rint(data["weights"] - 1.0).astype(int)
+    if not np.array_equal(np.rint(data["redshifts"] / 0.01).astype(int) - 1, rows):
+        v.append(dict(signature="C16/rows/not-joint", what="weights and redshifts name different source rows"))
+    missing = sorted(set(range(m)) - set(rows.tolist()))
+    if missing or rows.min() < 0 or rows.max() >= m:
+        v.append(dict(signature="C16/rows/unreachable-row",
+                      what=f"source rows {missing} of {m} never appear in {300 * m} draws (seed 12345)"))
+    stub = GridRng()
+    gen.rng = stub
+    gen(5)
+    ints = [c for c in stub.calls if c[0] == "integers"]
+    if ints and any((c[1], c[2]) != (0, m) for c in ints):
+        v.append(dict(signature="C16/rows/index-range", what=f"row indices drawn from {[(c[1], c[2]) for c in ints]}, "
+                      f"the source has rows [0, {m})"))
+    return v, True
 
 
 def run_probe(case):
@@ -249,6 +294,7 @@ class GridRng:
         return lo + u * (hi - lo)
 
     def integers(self, lo, hi, size):
+        self.calls.append(("integers", lo, hi, size))
         return (np.arange(size) * 3 + 1) % hi
 
 
@@ -291,7 +337,7 @@ def run_refrom(case):
 
 
 def run_case(case):
-    fn = dict(catalog=run_catalog, history=run_history, uniform=run_uniform, refrom=run_refrom, probe=run_probe)[case["part"]]
+    fn = dict(catalog=run_catalog, history=run_history, uniform=run_uniform, refrom=run_refrom, probe=run_probe, rows=run_rows)[case["part"]]
     viols, nontrivial = fn(case)
     res = dict(nontrivial=bool(nontrivial), key=case)
     if viols:
